@@ -219,7 +219,7 @@ func (a *AudioSampleEntryBox) EncodeSW(sw bits.SliceWriter) error {
 			return err
 		}
 	}
-	return err
+	return sw.AccError()
 }
 
 // Info - write box info to w
